@@ -158,6 +158,9 @@ class Rpms(productmd.common.MetadataBase):
         if category not in SUPPORTED_CATEGORIES:
             raise ValueError("Invalid category value: %s" % category)
 
+        if not path:
+            raise ValueError("Path is not set: %s" % nevra)
+
         if path.startswith("/"):
             raise ValueError("Relative path expected: %s" % path)
 
